@@ -31,6 +31,9 @@ def session(rng, njoin, nops):
     rng.shuffle(order)
     for n in order:
         ops += [f"{n} renew {rng.choice([1500, 2500])}", f"m lookup_address {idof[n]}"]
+    # every node checks its connection both ways (joined directly or through a relay)
+    for n in names:
+        ops += [f"{n} check_connection 2 F", f"{n} check_connection 2 T"]
     for _ in range(nops):
         x = rng.random()
         n, o = rng.choice(names), rng.choice(names)
